@@ -21,6 +21,9 @@ func coqPathElem(e any) string {
 	case string:
 		return "(PStr " + coqStrBytes(x) + ")"
 	}
+	if e == nil {
+		return "(PKey TAny (GAny None))" // a nil interface used as a map key
+	}
 	v := reflect.ValueOf(e)
 	return "(PKey " + coqTy(v.Type()) + " " + coqGval(v) + ")"
 }
